@@ -28,5 +28,6 @@ GRefines == (m.mode # "oom" /\ v.wait # "oom") => Agree(m, v)
 \* listing was not touched since the last compilation, or the dirty flag is set
 CacheCoherent == v.dirty \/ v.P.daddr = 0 \/ LET P == CompileProgram(v.lst) IN
                    SubSeq(v.P.link.ops, 1, v.P.daddr - 1) = SubSeq(PLink(P).link.ops, 1, PLink(P).daddr - 1)
+NoRunWithErrors == ErrorsBlock(v)
 GView == <<m, nh, v>>
 =============================================================================
